@@ -1,4 +1,6 @@
 import WebrtcVerif.Base.Wire
+import WebrtcVerif.Drv.C31
+import WebrtcVerif.Drv.C12
 import WebrtcVerif.Drv.C20
 import WebrtcVerif.Drv.C27
 import WebrtcVerif.Drv.C25
@@ -54,6 +56,8 @@ def runLine (toks : List String) : String :=
   | "C25" :: rest => Drv.C25.run rest
   | "C27" :: rest => Drv.C27.run rest
   | "C20" :: rest => Drv.C20.run rest
+  | "C12" :: rest => Drv.C12.run rest
+  | "C31" :: rest => Drv.C31.run rest
   | _ => "bad-op"
 
 def judgeLine (toks : List String) : String :=
@@ -83,6 +87,8 @@ def judgeLine (toks : List String) : String :=
   | "C25" :: rest => Drv.C25.judge rest out
   | "C27" :: rest => Drv.C27.judge rest out
   | "C20" :: rest => Drv.C20.judge rest out
+  | "C12" :: rest => Drv.C12.judge rest out
+  | "C31" :: rest => Drv.C31.judge rest out
   | _ => "bad-judge"
 
 partial def loop (h : IO.FS.Stream) (out : IO.FS.Stream) (f : List String → String) : IO Unit := do
